@@ -164,6 +164,10 @@ pub enum Idle {
     /// a / b gets one event; `late`: that event is produced right before the LAST warm-up dispatch, so that the
     /// measured dispatch directly follows the one that delivered it (nothing is pending then either)
     Comp { a: u8, b: u8, used: u8, late: bool },
+    /// sync_channel(bound), bound 1..=8, sender kept, filled to exactly `bound` messages right before the LAST warm-up
+    /// dispatch, which drains it: the measured dispatch directly follows the one that emptied a full bounded channel
+    /// (the channel has seen its queue empty, so it has no reason to wake itself up again)
+    ChanFull { bound: u8 },
 }
 
 #[derive(Serialize, Deserialize, Debug, Clone, Copy, Hash, PartialEq, Eq)]
@@ -264,6 +268,7 @@ impl Idle {
             Idle::Comp { used: 0, .. } => "idle:composite_quiet",
             Idle::Comp { late: false, .. } => "idle:composite_used",
             Idle::Comp { late: true, .. } => "idle:composite_used_in_last_warmup",
+            Idle::ChanFull { .. } => "idle:bounded_channel_drained_while_full_in_last_warmup",
         }
     }
 }
@@ -391,7 +396,7 @@ fn idle_strategy() -> impl Strategy<Value = Idle> {
         2 => any::<bool>().prop_map(|used| Idle::GenericRead { used }),
         2 => Just(Idle::DisabledPinged),
         1 => Just(Idle::SlowHook),
-        3 => (0u8..3, 0u8..3, 0u8..4, any::<bool>()).prop_map(|(a, b, used, late)| Idle::Comp { a, b, used, late }),
+        3 => prop_oneof![3 => (0u8..3, 0u8..3, 0u8..4, any::<bool>()).prop_map(|(a, b, used, late)| Idle::Comp { a, b, used, late }), 1 => (1u8..=8).prop_map(|bound| Idle::ChanFull { bound })],
     ];
     prop_oneof![14 => live, 10 => dead]
 }
@@ -739,6 +744,18 @@ fn run_once(c: &Case) -> Obs {
                 if used {
                     let _ = tx.send(7);
                 }
+                keep.push(Box::new(tx));
+            }
+            Idle::ChanFull { bound } => {
+                let bound = bound.clamp(1, 8) as usize;
+                let (tx, rx) = calloop::channel::sync_channel::<u32>(bound);
+                h.insert_source(rx, move |_, _, t: &mut Trace| t.push(Src::Idle(i))).expect("insert sync channel");
+                let tx2 = tx.clone();
+                late_uses.push(Box::new(move || {
+                    for k in 0..bound {
+                        let _ = tx2.try_send(k as u32);
+                    }
+                }));
                 keep.push(Box::new(tx));
             }
             Idle::ChanDead { used } => {
@@ -1695,7 +1712,7 @@ pub fn run_case_with(known: &Known, case: &Case) -> CaseOutcome {
 // class cross product: timeout class x timer-relation class x idle-source kind
 // ------------------------------------------------------------------------------------------------
 
-const ALL_IDLE: [Idle; 23] = [
+const ALL_IDLE: [Idle; 25] = [
     Idle::Comp { a: 1, b: 1, used: 1, late: false },
     Idle::Comp { a: 1, b: 0, used: 2, late: true },
     Idle::Comp { a: 2, b: 2, used: 2, late: false },
@@ -1719,6 +1736,8 @@ const ALL_IDLE: [Idle; 23] = [
     Idle::GenericRead { used: false },
     Idle::GenericRead { used: true },
     Idle::DisabledPinged,
+    Idle::ChanFull { bound: 1 },
+    Idle::ChanFull { bound: 3 },
 ];
 
 /// All combinations of (timeout class) x (timer relation class) x (no idle source | each idle kind),
